@@ -1635,6 +1635,10 @@ tpt_ev_validate(int op, tp_event_p ev, tp_udata_p tp_udata) {
 		if (0 == ev->data &&
 		    (TP_CTL_ADD == op || TP_CTL_ENABLE == op))
 			return (EINVAL); /* Zero time: timer will never fire. */
+		if (TP_FF_T_SEC == (TP_FF_T_TM_MASK & ev->fflags) &&
+		    ((uint64_t)INT64_MAX) < ev->data &&
+		    (TP_CTL_ADD == op || TP_CTL_ENABLE == op))
+			return (EINVAL); /* Not a time_t: refused here, error later destroy the live timer. */
 		break;
 	case TP_EV_PROC:
 #if defined(TP_F_EDGE)
@@ -1684,6 +1688,8 @@ tpt_ev_add(tpt_p tpt, tp_event_p ev, tp_udata_p tp_udata) {
 	if (NULL == tp_udata || NULL == tpt) /* Do not damage live tp_udata. */
 		return (EINVAL);
 	tpt_old = tp_udata->tpt;
+	if (NULL != tpt_old && tpt_old != tpt && 0 != tp_udata->tpdata)
+		return (EBUSY); /* Live on other thread: del it there first (it stay in that epoll). */
 	tp_udata->tpt = tpt; /* The checks look at it. */
 	error = tpt_ev_validate(TP_CTL_ADD, ev, tp_udata);
 	if (0 != error) { /* Refused: live tp_udata stay on its thread. */
